@@ -413,7 +413,7 @@ let samename_stream oc =
 let routes_stream oc =
   let spy = print (filt (var "x") "spy" []) and spyf = print (call "spyfn" [ var "n" ]) in
   let sbx name = [ text "["; include_ ~sandboxed:true (lit_str name); text "]" ] in
-  let pol = Some ([ "spya"; "upper" ], [ "spyfna"; "include"; "parent"; "block"; "source" ]) in
+  let pol = Some ([ "spya"; "upper"; "spyfn" ], [ "spyfna"; "include"; "parent"; "block"; "source" ]) in
   let extra shape = [ "pos", JS ("route-" ^ shape); "nest", JL []; "depth", JI 1; "pol", JS "allbut"; "boundary", JS "plain";
                       "target", JS "filter:spy"; "target_allowed", JB false; "must_fail", JB false;
                       "forbidden_reached", JL []; "forbidden_inside", JL [ JS "filter:spy"; JS "function:spyfn" ] ] in
@@ -432,6 +432,11 @@ let routes_stream oc =
        "extends-without-blocks-through-only", [ layout; ("e", [ M.NExtends (lit_str "layout") ]); ("sb0", [ include_ ~withs:pass_vars ~only:true (lit_str "e") ]); ("main", sbx "sb0") ];
        "extends-chain-without-blocks", [ layout; ("mid", [ M.NExtends (lit_str "layout") ]); ("sb0", [ M.NExtends (lit_str "mid") ]); ("main", sbx "sb0") ];
        "extends-dynamic-without-blocks", [ layout; ("sb0", [ M.NExtends (M.EBin (M.BConcat, lit_str "lay", lit_str "out")) ]); ("main", sbx "sb0") ];
+       (* the name of a forbidden function written where a filter stands, under a policy that knows the name as a filter *)
+       "function-name-as-filter", [ ("sb0", [ print (filt (var "n") "spyfn" []) ]); ("main", sbx "sb0") ];
+       "function-name-as-filter-in-for", [ ("sb0", [ M.NFor (None, bs "i", filt (var "xs") "spyfn" [], [ text "x" ], None) ]); ("main", sbx "sb0") ];
+       "function-name-as-filter-in-apply", [ ("sb0", [ M.NApply (bs "spyfn", [], [ text "x" ]) ]); ("main", sbx "sb0") ];
+       "function-name-as-filter-in-chain", [ ("sb0", [ print (filt (filt (var "x") "upper" []) "spyfn" []) ]); ("main", sbx "sb0") ];
        "source-function", [ inner; ("sb0", [ print (call "source" [ lit_str "inner" ]) ]); ("main", sbx "sb0") ];
        "block-function", [ ("sb0", [ M.NBlock (bs "b", [ spy ]); print (call "block" [ lit_str "b" ]) ]); ("main", sbx "sb0") ] ])
 
